@@ -518,4 +518,23 @@ theorem cacheOK_of_cacheWF (V : Type) (p : CProg) (h : cacheWF p = true) : Cache
       rw [this, t4.1]
       simp [CRes.lift, CSt.lift, t4.2.1, t4.2.2.1, t4.2.2.2]
 
+theorem resIs_of {r : CRes Bool × CSt Bool} {raised : Bool} {v : Option Bool} {has : Bool}
+    {slot : Option Bool} {calls : Nat}
+    (h1 : r.1 = (if raised then .raised else .ret v)) (h2 : r.2.has = has) (h3 : r.2.slot = slot)
+    (h4 : r.2.calls = calls) : resIs r raised v has slot calls = true := by
+  obtain ⟨c, s⟩ := r
+  simp only at h1 h2 h3 h4
+  subst h1 h2 h3 h4
+  cases raised <;> simp [resIs]
+
+/-- the checker is complete: it rejects only programs that break the protocol (over `Bool` already) -/
+theorem cacheWF_of_cacheOK (p : CProg) (ok : CacheOK Bool p) : cacheWF p = true := by
+  have a := ok.fail (testSt false) rfl
+  have b := ok.succ (testSt false) true rfl
+  have c := ok.hit (testSt true) none rfl
+  have d := ok.hit (testSt true) (some true) rfl
+  simp only [cacheWF, Bool.and_eq_true]
+  exact ⟨⟨⟨resIs_of (by simpa using a.1) a.2.1 a.2.2.1 a.2.2.2, resIs_of (by simpa using b.1) b.2.1 b.2.2.1 b.2.2.2⟩,
+    resIs_of c.1 c.2.1 c.2.2.1 c.2.2.2⟩, resIs_of d.1 d.2.1 d.2.2.1 d.2.2.2⟩
+
 end MxModel.Export
